@@ -2,11 +2,11 @@ module verifharness
 
 go 1.21
 
-require github.com/goblimey/go-ntrip v0.0.0
-
 require (
-	github.com/goblimey/go-crc24q v0.0.0-20210107174841-6ea518daa3aa // indirect
-	github.com/goblimey/go-tools v0.0.11 // indirect
+	github.com/goblimey/go-crc24q v0.0.0-20210107174841-6ea518daa3aa
+	github.com/goblimey/go-ntrip v0.0.0
 )
+
+require github.com/goblimey/go-tools v0.0.11 // indirect
 
 replace github.com/goblimey/go-ntrip => /repo
